@@ -215,6 +215,9 @@ def eff(case):
     # look for ali/ when built with suppress_alis=True (observation, formerly proposed as finding C14.attr.suppress_alis_after_construction)
     o["ali_found"] = o["with_ali"] and not (cls.startswith("spect") and o["suppress_alis"])
     o["left"], o["right"], o["reverse"] = case.get("left", 0), case.get("right", 0), bool(case.get("reverse"))
+    # the shuffling seed stored on the epoch sampler (None: not given to the constructor - drawn from torch's
+    # generator, read back from the object by `seed_of`)
+    o["base_seed"] = None if "seed" in om else case["seed"]
     return o
 
 
@@ -225,7 +228,8 @@ def eff(case):
 # change what a window looks like (harness-level presentation, no operation of the Lean model).
 FLAG_ATTRS = ("batch_first", "sort_batch", "suppress_uttids", "suppress_alis", "tokens_only")
 CTX_ATTRS = ("left", "right", "reverse")
-SNAP_KEYS = FLAG_ATTRS + ("drop",) + CTX_ATTRS
+SAMPLER_ATTRS = ("base_seed",)       # loader.batch_sampler.sampler.base_seed (shuffled loaders): `SOp.setSeed`
+SNAP_KEYS = FLAG_ATTRS + ("drop",) + CTX_ATTRS + SAMPLER_ATTRS
 LATE_POS = ("start", "mid", "end")
 
 
@@ -241,7 +245,7 @@ def late_attrs(cls):
 def with_attr(o, name, value):
     """The options in force after `obj.name = value`."""
     o = dict(o)
-    o[name] = value if name in ("left", "right") else bool(value)
+    o[name] = value if name in ("left", "right") else int(value) if name == "base_seed" else bool(value)
     return o
 
 
@@ -258,6 +262,8 @@ def assign_attr(loader, name, value):
     elif name == "drop":
         obj = loader.batch_sampler
         name = "drop_incomplete" if isinstance(obj, BucketBatchSampler) else "drop_last"
+    elif name == "base_seed":
+        obj = loader.batch_sampler.sampler
     else:
         obj = loader.dataset
     setattr(obj, name, value)
@@ -270,6 +276,8 @@ def model_op(op, arg):
         name, value = arg
         if name in CTX_ATTRS:
             return None
+        if name == "base_seed":
+            return {"seed": int(value)}
         return {"drop": bool(value)} if name == "drop" else {"attr": [name, bool(value)]}
     if op in ("set", "next", "peek"):
         return {op: arg}
@@ -380,6 +388,47 @@ def epochs_reached(case):
     return sorted(out)
 
 
+def revisits(case):
+    """(attribute, how the epoch was materialised before, how it is asked for again) for every assignment
+    after which an epoch that the object had ALREADY materialised (full pass / first batch of an iterator /
+    len() / look-up) is asked for again - bookkeeping of the epoch counter only."""
+    e, started = eff(case)["init_epoch"], []
+    seen, pending, out = {}, [], set()       # epoch -> how it was materialised last; [attribute, {epoch: way}]
+    last, fresh = [None], []                 # the epoch materialised last; assignments made since
+
+    def touch(ep, way):
+        for name, old in pending:
+            if ep in old:
+                out.add((name, old[ep], way, False))
+        for name in fresh:                   # the sharpest form: the LAST epoch materialised before the assignment
+            if last[0] == ep:                # is the FIRST one asked for after it
+                out.add((name, seen[ep], way, True))
+        del fresh[:]
+        seen[ep] = way
+        last[0] = ep
+    for op, arg in ops_of(case):
+        if op == "set":
+            e = arg
+        elif op == "open":
+            started.append(False)
+        elif op == "attr":
+            pending.append((arg[0], dict(seen)))
+            fresh.append(arg[0])
+        elif op == "len":
+            touch(e, "len")
+        elif op == "peek":
+            touch(arg, "lookup")
+        elif op == "next":
+            if arg < len(started) and not started[arg]:
+                started[arg] = True
+                touch(e, "pass")
+                e += 1
+        else:
+            touch(e, "pass")
+            e += 1
+    return sorted(out)
+
+
 def ordering(case, seed, e, N):
     """The whole-data-set ordering of epoch e, from numpy directly (the documented seeding
     `RandomState((base_seed, epoch)).permutation(N)`), or 0..N-1 without shuffling."""
@@ -435,7 +484,17 @@ class C14(PropertyCheck):
             "constructed, every batch judged by the values at ITS collate call, the last epoch pass compared "
             "member by member with a loader constructed with the values in force; sampler stream: "
             "BucketBatchSampler.sampler / idx2bucket / bucket2size / drop_incomplete assigned after construction "
-            "and flipped on the used object, base_seed of a library EpochRandomSampler re-assigned). non-trivial: >= 2 buckets in use or an "
+            "and flipped on the used object, base_seed of a library EpochRandomSampler re-assigned). "
+            "REASSIGN, THEN THE SAME EPOCH AGAIN - sampler stream: drop_incomplete / bucket2size / idx2bucket / sampler "
+            "of the bucket sampler, batch_size / drop_last / sampler of torch's BatchSampler, base_seed / total + "
+            "effective_total / epoch (there and back) of a library epoch sampler underneath are assigned on an "
+            "object that has ALREADY materialised epoch E (full pass | len() | get_samples_for_epoch(E)), then len, "
+            "samples and batches of E must equal those of a fresh object constructed with the new value at E; loader "
+            "stream: loader.batch_sampler.sampler.base_seed (shuffled loaders) is a further assignable attribute at "
+            "every position incl. between the batches of a live iterator, and an interleaved pattern materialises an "
+            "epoch (pass / len / look-up), assigns base_seed | drop flag | a presentation flag and asks for the SAME "
+            "epoch again (len, look-up, a pass to its end), once or twice; passes are identified by (seed in force, "
+            "epoch), the Lean Seeded model runs every operation on the orderings of the seed stored at that moment. non-trivial: >= 2 buckets in use or an "
             "incomplete batch (sampler/loader), a padded row (collate), an edge-padded window; distinct by "
             "the case dict")
     assumptions = [
@@ -454,6 +513,8 @@ class C14(PropertyCheck):
         "(num_workers=0; with worker processes only assignments made before iter(loader) are generated)",
         "SpectDataSet fixes at construction whether alignments are available (has_ali): after "
         "dataset.suppress_alis = False on a data set built with True the ali member is None (listed known finding)",
+        "the orderings of a re-seeded loader: numpy RandomState((s, epoch)).permutation(N) for every seed s a script "
+        "assigns, computed by the harness and handed to the driver per seed",
     ]
     exhaustive = {"quick": False, "thorough": False}
     _seeds = {}         # base seeds drawn by loaders built without `seed` (run_impl -> model_request)
@@ -750,30 +811,42 @@ class C14(PropertyCheck):
         def draw(name):
             if name in ("left", "right"):
                 return rng.randrange(0, 3)
+            if name == "base_seed":     # another seed (70 %), or the constructor's again
+                return case["seed"] + (rng.choice((1, 2)) if rng.random() < 0.7 else 0)
             return (not o[name]) if rng.random() < 0.7 else bool(o[name])
-        names = list(late_attrs(cls)) + ([] if world else ["drop"])
+        # the attributes every DERIVED quantity (len, samples, index batches) depends on: the batch sampler's drop
+        # flag (no process group), the epoch sampler's base_seed (shuffled loaders)
+        derived = ([] if world else ["drop"]) + (["base_seed"] if o["shuffle"] else [])
+        names = list(late_attrs(cls)) + derived
         if rng.random() < 0.45:
             case["late"] = [[rng.choice(LATE_POS), n, draw(n)]
                             for n in rng.sample(names, rng.choice((1, 1, 2, 3)))]
         if rng.random() < 0.1:
             case["epoch_via"] = "sampler"       # loader.batch_sampler.sampler.epoch = e instead of loader.epoch = e
+        mid_pass = list(late_attrs(cls)) + [n for n in derived if n != "drop"]
         case["weave"] = self.weave_script(rng, len(o["ids"]), e0, case["epochs"],
-                                          [(n, draw(n)) for n in late_attrs(cls)])
+                                          [(n, draw(n)) for n in mid_pass],
+                                          [(n, draw(n)) for n in derived + derived + names])
         return case
 
     @staticmethod
-    def weave_script(rng, N, e0, epochs, attrs=()):
+    def weave_script(rng, N, e0, epochs, attrs=(), between=()):
         """An interleaved section (see `weave_of`): what a training script may do with a loader
         WHILE a pass over it is in flight, the pass being continued to its end afterwards - len()
         for a progress display after the first / any / every batch, a look-up of another epoch's
         samples, a second (third) iterator of the same loader advanced alternately (zip(loader,
         loader)), an epoch assignment, an assignment to a public attribute of the loader / its data
         set (`attrs`: (name, value) pairs to draw from) that every LATER collate call has to honour;
-        one iterator may be left unfinished."""
+        one iterator may be left unfinished. Pattern `revisit` (`between`: (name, value) pairs that may be
+        assigned while no pass is in flight - also the batch sampler's drop flag): an epoch e is MATERIALISED
+        (a pass over it / len() at it / a look-up of it), an attribute is reassigned, and the SAME epoch e is
+        asked for again (len, look-up, a pass continued to its end) - whatever was derived for e from the old
+        value must not survive."""
         some_epoch = lambda: rng.choice((e0, e0, e0 + 1, max(e0 - 1, 0), e0 + epochs, rng.randrange(0, e0 + epochs + 4)))
         w = [["set", e0]] if rng.random() < 0.7 else []
         pat = rng.choice(("log_every", "log_once", "peek_once", "zip", "zip_len", "random", "random")
-                         + (("attr_once", "attr_once") if attrs else ()))
+                         + (("attr_once", "attr_once") if attrs else ())
+                         + (("revisit", "revisit", "revisit") if between else ()))
 
         def attr():
             n, v = rng.choice(attrs)
@@ -798,6 +871,24 @@ class C14(PropertyCheck):
             w += [["next", 0]] * rng.choice((0, 1, 1, max(N // 2, 1), rng.randrange(1, N + 2)))
             w += [attr() for _ in range(rng.choice((1, 1, 2)))]
             w.append(["drain", 0])
+        elif pat == "revisit":
+            e = some_epoch()
+            k = 0
+            for _ in range(rng.choice((1, 1, 2))):
+                w.append(["set", e])
+                way = rng.choice(("pass", "len", "peek"))
+                if way == "pass":
+                    w += [["open"], ["drain", k]]
+                    k += 1
+                else:
+                    w.append(["len"] if way == "len" else ["peek", e])
+                n, v = rng.choice(between)
+                w.append(["attr", n, v])
+                if way != "len" or rng.random() < 0.5:      # (len() then the pass: the loader still stands at e)
+                    w.append(["set", e])
+                w += rng.choice(([], [], [["len"]], [["peek", e]], [["len"], ["peek", e]]))
+                w += [["open"], ["drain", k]]
+                k += 1
         elif pat in ("zip", "zip_len"):             # for a, b in zip(loader, loader)
             w += [["open"], ["open"]]
             for i in range(N + 1):
@@ -972,13 +1063,144 @@ class C14(PropertyCheck):
             smp.base_seed = case["seed"]
             if got_s != want_s or [int(x) for x in smp.get_samples_for_epoch(E)] != case["order"]:
                 attr_detail = {"base_seed_assigned": got_s, "constructed_with_it": want_s}
+        revisit_detail = self.sampler_revisit(case, i2b, b2s, drop)
         return {"batches": out, "err": err, "len": ln, "repeatable": again == out and err == err2,
                 "attrs_ok": attr_detail is None, "attrs_detail": attr_detail,
+                "revisit_ok": revisit_detail is None, "revisit_detail": revisit_detail,
                 "after_abandon": third == out and err3 == err and mid == ln
                 and (first is None or (bool(out) and [int(x) for x in first] == out[0])),
                 "interleaved": woven,
                 "interleaved_detail": None if woven else {"a": got[0], "b": got[1], "b_alone": out_b, "errs": errs,
                                                           "len": mid2, "other_epoch": other}}
+
+    def sampler_revisit(self, case, i2b, b2s, drop):
+        """REASSIGN, THEN REVISIT THE SAME EPOCH. Every public attribute the batch sampler / the epoch
+        sampler underneath reads at iteration time (drop_incomplete, bucket2size, idx2bucket, sampler;
+        base_seed, total / effective_total, epoch of a library epoch sampler) is assigned on an object
+        that has ALREADY materialised the epoch in question - by a full pass, by len(), or by
+        get_samples_for_epoch(E) - and the SAME epoch is asked for again: len, samples and batches must
+        be those of a fresh object constructed with the new values at that epoch (nothing derived from
+        the old values may survive under a key that does not hold the reassigned attribute).
+        -> None, or the first difference."""
+        from pydrobert.torch.data import BucketBatchSampler, EpochRandomSampler, EpochSequentialSampler
+        from pydrobert.torch._dataloaders import _get_batch_sampler_len
+        from torch.utils.data import BatchSampler
+        skind = case.get("sampler")
+        plain = skind == "plain"
+        real = skind in ("epoch_random", "epoch_seq")
+        E = case.get("epoch", 0)
+        n = len(case["order"])
+        seed = case.get("seed", 0)
+        base = {"order": list(case["order"]), "seed": seed, "total": n, "i2b": i2b, "b2s": b2s, "drop": drop}
+
+        def mk_sampler(v):
+            if real:
+                if skind == "epoch_random":
+                    return EpochRandomSampler(range(v["total"]), E, v["seed"], "ignore")
+                return EpochSequentialSampler(range(v["total"]), E, "ignore")
+            return list(v["order"]) if plain else ListSampler(v["order"])
+
+        def mk(v):
+            if v.get("flavour") == "torch":     # torch's BatchSampler: what a loader with one bucket uses
+                return BatchSampler(mk_sampler(v), v["B"], v["drop"])
+            return BucketBatchSampler(mk_sampler(v), v["i2b"], v["b2s"], v["drop"])
+
+        def at(bso, e):
+            if real:
+                bso.sampler.epoch = e
+
+        def length(bso, e):
+            if plain:
+                return "undefined"
+            at(bso, e)
+            try:
+                return int(_get_batch_sampler_len(bso))
+            except Exception as ex:
+                return {"err": type(ex).__name__}
+
+        def full(bso, e):
+            out, err = [], None
+            at(bso, e)
+            try:
+                for b in bso:
+                    out.append([int(x) for x in b])
+            except Exception as ex:
+                err = type(ex).__name__
+            return [out, err]
+
+        def samples(bso, e):
+            if not real:
+                return None
+            return [int(x) for x in bso.sampler.get_samples_for_epoch(e)]
+
+        def materialise(bso, way, e):
+            {"pass": full, "len": length, "samples": samples}[way](bso, e)
+
+        def observe(bso, e):
+            return {"len": length(bso, e), "samples": samples(bso, e), "batches": full(bso, e)}
+        bks = sorted(b2s)
+        nxt = {b: bks[(j + 1) % len(bks)] for j, b in enumerate(bks)}
+        i2b_alt = {i: nxt.get(b, b) for i, b in i2b.items()}
+        b2s_alt = {b: s % 3 + 1 for b, s in b2s.items()}
+        v_smp = ({**base, "seed": seed + 1} if skind == "epoch_random" else {**base, "total": max(n - 1, 0)}
+                 if real else {**base, "order": list(reversed(case["order"]))})
+
+        def set_total(bso, way):
+            bso.sampler.total = bso.sampler.effective_total = max(n - 1, 0)
+
+        def there_and_back(bso, way):       # the epoch counter itself: on to E + 1, that epoch materialised, back
+            materialise(bso, way, E + 1)
+            at(bso, E)
+        alts = [("drop_incomplete", lambda bso, way: setattr(bso, "drop_incomplete", not drop), {**base, "drop": not drop}),
+                ("bucket2size", lambda bso, way: setattr(bso, "bucket2size", b2s_alt), {**base, "b2s": b2s_alt}),
+                ("idx2bucket", lambda bso, way: setattr(bso, "idx2bucket", i2b_alt), {**base, "i2b": i2b_alt}),
+                ("sampler", lambda bso, way: setattr(bso, "sampler", mk_sampler(v_smp)), v_smp)]
+        if real:
+            alts += [("sampler.total / effective_total", set_total, {**base, "total": max(n - 1, 0)}),
+                     ("sampler.epoch (on to the next epoch and back)", there_and_back, base)]
+        if skind == "epoch_random":
+            alts.append(("sampler.base_seed", lambda bso, way: setattr(bso.sampler, "base_seed", seed + 1),
+                         {**base, "seed": seed + 1}))
+        # the same with torch's BatchSampler on top (the one-bucket path of the loaders; `_get_batch_sampler_len`
+        # hands its len() on): batch_size, drop_last, sampler and the epoch sampler's attributes
+        B = max([s for s in b2s.values() if isinstance(s, int) and s > 0] or [1])
+        tb = {**base, "flavour": "torch", "B": B}
+        talts = [("batch_size (torch BatchSampler)", lambda bso, way: setattr(bso, "batch_size", B % 3 + 1), {**tb, "B": B % 3 + 1}),
+                 ("drop_last (torch BatchSampler)", lambda bso, way: setattr(bso, "drop_last", not drop), {**tb, "drop": not drop}),
+                 ("sampler (torch BatchSampler)", alts[3][1], {**v_smp, "flavour": "torch", "B": B})]
+        talts += [(nm + " (torch BatchSampler on top)", fn, {**v, "flavour": "torch", "B": B}) for nm, fn, v in alts[4:]]
+        ways = ("pass",) if plain else ("pass", "len", "samples") if real else ("pass", "len")
+        salt = n + sum(s for s in b2s.values() if isinstance(s, int)) + int(drop)
+        for j, (name, assign, v) in enumerate(alts):
+            # (the small grids without a library sampler are enumerated completely: there one attribute and
+            # one way per case, rotating, reaches every attribute x way combination many times over)
+            if not real and j != (salt // 2) % len(alts):
+                continue
+            want = observe(mk(v), E)
+            # (every way of materialising for the attributes of the epoch sampler - where an epoch's ordering
+            # comes from -, one rotating way for the others)
+            for way in (ways if real and j >= 3 else ways[(salt + j) % len(ways):][:1]):
+                bso = mk(base)
+                materialise(bso, way, E)
+                assign(bso, way)
+                got = observe(bso, E)
+                if got != want:
+                    return {"attribute": name, "epoch_materialised_before_by": way, "epoch": E,
+                            "after_the_assignment": got, "fresh_object_with_the_new_value": want}
+        if real or salt % 3 == 0:
+            for j, (name, assign, v) in enumerate(talts):
+                if not real and j != (salt // 3) % len(talts):
+                    continue
+                want = observe(mk(v), E)
+                for way in ways[(salt + j) % len(ways):][:1]:
+                    bso = mk(tb)
+                    materialise(bso, way, E)
+                    assign(bso, way)
+                    got = observe(bso, E)
+                    if got != want:
+                        return {"attribute": name, "epoch_materialised_before_by": way, "epoch": E,
+                                "after_the_assignment": got, "fresh_object_with_the_new_value": want}
+        return None
 
     # ---- params
     def impl_params(self, case):
@@ -1269,8 +1491,8 @@ class C14(PropertyCheck):
             kw["init_epoch"] = epoch
         elif "init_epoch" not in om:
             kw["init_epoch"] = o["init_epoch"]
-        if "seed" not in om:
-            kw["seed"] = case["seed"]
+        if o["base_seed"] is not None:      # (`now`: the value assigned since; None = left to the constructor's draw)
+            kw["seed"] = o["base_seed"]
         if "uneven" not in om and not o["cw"]:
             kw["on_uneven_distributed"] = o["uneven"]
         kw["num_workers"] = o["workers"]
@@ -1547,6 +1769,7 @@ class C14(PropertyCheck):
                         ev["opts"] = snap(cur)
                     else:
                         ev["of"] = arg
+                        ev["opts"] = snap(cur)
                         ev["samples"] = [int(x) for x in loader.batch_sampler.sampler.get_samples_for_epoch(arg)]
                     ev["epoch_after"] = int(loader.epoch)
                     obs["events"].append(ev)
@@ -1630,6 +1853,10 @@ class C14(PropertyCheck):
                 "present": {k: bool(o[k]) for k in FLAG_ATTRS}, "mode": o["uneven"],
                 "dist": [case.get("rank", 0), W] if W else None, "init_epoch": o["init_epoch"],
                 "perms": [[e, ordering(case, seed, e, N)] for e in epochs_reached(case)],
+                "seed": seed,
+                "reseed": [[s2, [[e, ordering(case, s2, e, N)] for e in epochs_reached(case)]]
+                           for s2 in sorted({int(arg[1]) for op, arg in ops_of(case)
+                                             if op == "attr" and arg[0] == "base_seed"} - {seed})],
                 "ops": [m for m in (model_op(op, arg) for op, arg in ops_of(case)) if m is not None]}}
         return None
 
@@ -1713,6 +1940,17 @@ class C14(PropertyCheck):
             return max(self._seeds.get(self.key(case), 0), 0)
         return case["seed"]
 
+    def seed_in(self, case, opts):
+        """The shuffling seed in force at an operation: the value last assigned to
+        `sampler.base_seed`, else the constructor's (given or drawn)."""
+        s = (opts or {}).get("base_seed")
+        return self.seed_of(case) if s is None else int(s)
+
+    def seed_differs(self, case, a, b):
+        if "seed" in b and "opts" in a and b["seed"] != self.seed_in(case, a["opts"]):
+            return [f"base_seed in force: harness {self.seed_in(case, a['opts'])}, model {b['seed']}"]
+        return []
+
     def compare_loader(self, case, impl, model):
         if "error" in impl:
             if "err" in model and impl["error"] == model["err"]:
@@ -1735,7 +1973,7 @@ class C14(PropertyCheck):
                 continue
             if a["epoch_before"] != b["epoch"]:
                 out.append(w + f"loader.epoch = {a['epoch_before']} before the pass")
-            out += [w + x for x in self.flags_differ(a, b)]
+            out += [w + x for x in self.flags_differ(a, b) + self.seed_differs(case, a, b)]
             if a["len_before"] != b["len"]:
                 out.append(w + f"len() before the pass impl={a['len_before']} model={b['len']}")
             want = b["rows"]
@@ -1750,7 +1988,7 @@ class C14(PropertyCheck):
                 out.append(w + f"batches impl={a['rows']} model={want}")
             if a["len_after"] != b["len_after"]:
                 out.append(w + f"len() after the pass impl={a['len_after']} model={b['len_after']}")
-            lib = sub_order(case, seed, b["epoch"])
+            lib = sub_order(case, self.seed_in(case, a["opts"]), b["epoch"])
             if lib != b["order"]:
                 out.append(w + f"sample order of a library sampler object {lib} != C13 model {b['order']}")
         # the interleaved section, operation by operation
@@ -1763,7 +2001,7 @@ class C14(PropertyCheck):
                 out.append(w + f"loader.epoch {a['epoch_before']} -> {a['epoch_after']}, model "
                            f"{b['epoch']} -> {b['epoch_after']}")
             if "opts" in a:
-                out += [w + x for x in self.flags_differ(a, b)]
+                out += [w + x for x in self.flags_differ(a, b) + self.seed_differs(case, a, b)]
                 invisible = o["cw"] and a["opts"]["suppress_uttids"]
             if op == "next":
                 if "err" in b:
@@ -1867,6 +2105,13 @@ class C14(PropertyCheck):
                           "an EpochRandomSampler underneath) "
                           "assigned after construction do not give what an object constructed with these values "
                           f"gives: {impl['attrs_detail']}", "C14.attr.sampler"))
+        if not impl.get("revisit_ok", True):
+            d = impl["revisit_detail"]
+            fails.append((f"{d['attribute']} reassigned on a batch sampler that had materialised epoch {d['epoch']} "
+                          f"before (by {d['epoch_materialised_before_by']}), then the SAME epoch asked for again: "
+                          f"len / samples / batches {d['after_the_assignment']} are not those of a fresh object "
+                          f"constructed with the new value at that epoch {d['fresh_object_with_the_new_value']}",
+                          "C14.attr.revisit"))
         return fails
 
     def pred_params(self, case, impl, model):
@@ -2163,13 +2408,14 @@ class C14(PropertyCheck):
                 stale = a is not impl["serves"][0] and a["len_before"] == first
                 fails.append((where + f"len() = {a['len_before']} before the pass, {len(batches)} batches yielded",
                               "C14.loader.len_stale" if stale else "C14.loader.len"))
-            by_epoch.setdefault(e, []).append({"tag": a["tag"], "rows": batches, "drop": drop, "canon": canon,
+            by_epoch.setdefault((self.seed_in(case, a.get("opts")), e), []).append({"tag": a["tag"], "rows": batches, "drop": drop, "canon": canon,
                                                "sorts": [q["sort_batch"] for q in per], "invisible": invisible})
         # len() after a pass refers to the next epoch: where that one was served (same drop flag), compare
         for a in impl["serves"]:
             if a.get("partial"):
                 continue
-            nxt = [g for g in by_epoch.get(a["epoch_before"] + 1, ()) if g["drop"] == a["opts"]["drop"]]
+            nxt = [g for g in by_epoch.get((self.seed_in(case, a["opts"]), a["epoch_before"] + 1), ())
+                   if g["drop"] == a["opts"]["drop"]]
             if nxt and a["len_after"] is not None and a["len_after"] != len(nxt[0]["rows"]):
                 fails.append((f"{a['tag']} pass, epoch {a['epoch_before']}: len() = {a['len_after']} afterwards, "
                               f"epoch {a['epoch_before'] + 1} has {len(nxt[0]['rows'])} batches", "C14.loader.len"))
@@ -2177,9 +2423,10 @@ class C14(PropertyCheck):
         e_last = o["init_epoch"] + case["epochs"] - 1
         if "direct_last" in impl:
             # constructed WITH the values the attributes had when the last epoch pass ran
-            ref = [g for g in by_epoch.get(e_last, ()) if g["tag"] == "epoch"][-1:]
+            ref_key = [k for k, gs in by_epoch.items() if k[1] == e_last and any(g["tag"] == "epoch" for g in gs)][-1:]
+            ref = [g for k in ref_key for g in by_epoch[k] if g["tag"] == "epoch"][-1:]
             if ref:
-                by_epoch[e_last].append({"tag": "a loader constructed at that epoch", "rows": impl["direct_last"],
+                by_epoch[ref_key[0]].append({"tag": "a loader constructed at that epoch", "rows": impl["direct_last"],
                                          "drop": ref[0]["drop"], "canon": None, "sorts": ref[0]["sorts"],
                                          "invisible": ref[0]["invisible"]})
             if impl.get("direct_diff"):
@@ -2201,7 +2448,7 @@ class C14(PropertyCheck):
             # the same arrangement where the same sort flag was in force at both calls (each arrangement is
             # judged against its own flag above); the same utterances in any case
             return x == y if sx == sy else (x is not None and y is not None and sorted(x) == sorted(y))
-        for e, got in by_epoch.items():
+        for (sd, e), got in by_epoch.items():
             g0 = got[0]
             for g in got[1:]:
                 if g["drop"] != g0["drop"]:
@@ -2215,12 +2462,14 @@ class C14(PropertyCheck):
                         r0, r1 = [r0], [r1]
                 if len(r1) != len(r0) or not all(
                         same_batch(x, y, sx, sy) for x, y, sx, sy in zip(r0, r1, g0["sorts"] or [None], g["sorts"] or [None])):
-                    fails.append((f"epoch {e}: the {g0['tag']} pass yields {g0['rows']}, {g['tag']} {g['rows']}"
+                    fails.append((f"epoch {e} (base_seed {sd} in force): the {g0['tag']} pass yields {g0['rows']}, "
+                                  f"{g['tag']} {g['rows']}"
                                   + ("" if g["sorts"] == g0["sorts"] else f" (sort_batch per batch: {g0['sorts']} / "
                                                                          f"{g['sorts']})"), "C14.loader.determinism"))
         for a in serves_i:
             if a.get("partial"):
-                full = [g for g in by_epoch.get(a["epoch_before"], ()) if g["drop"] == a["opts"]["drop"]]
+                full = [g for g in by_epoch.get((self.seed_in(case, a["opts"]), a["epoch_before"]), ())
+                        if g["drop"] == a["opts"]["drop"]]
                 if full:
                     g0 = full[0]
                     first = g0["rows"][0] if g0["rows"] else None
@@ -2252,7 +2501,7 @@ class C14(PropertyCheck):
                         fails.append((f"epoch {a['epoch_before']}: the {a['tag']} (not consumed to its end) "
                                       f"yields {a['rows']}, the {g0['tag']} pass only {g0['rows']}",
                                       "C14.loader.determinism"))
-        fails += self.weave_lookups(case, o, lens, impl, by_epoch)
+        fails += self.weave_lookups(case, o, lens, impl, by_epoch, lambda opts: self.seed_in(case, opts))
         for s0 in impl["serves"]:
             if s0.get("has_ids") and s0["has_ids"][0] != (not s0["opts"]["suppress_uttids"]):
                 fails.append((f"{s0['tag']} pass, epoch {s0['epoch_before']}: suppress_uttids = "
@@ -2298,7 +2547,7 @@ class C14(PropertyCheck):
         return [its[k] for k in sorted(its)]
 
     @staticmethod
-    def weave_lookups(case, o, lens, impl, by_epoch):
+    def weave_lookups(case, o, lens, impl, by_epoch, seed_in):
         """len() / get_samples_for_epoch asked while iterators are alive, and what the operations
         of the interleaved section may do to loader.epoch."""
         fails, started = [], set()
@@ -2315,7 +2564,7 @@ class C14(PropertyCheck):
                 fails.append((f"operation {n} ({op}): loader.epoch {e} -> {a['epoch_after']}; only a full pass, an "
                               "assignment and the first next() of an iterator move it (by one)", "C14.loader.epoch"))
             if op == "len":
-                got = [g for g in by_epoch.get(e, ()) if g["drop"] == a["opts"]["drop"]]
+                got = [g for g in by_epoch.get((seed_in(a["opts"]), e), ()) if g["drop"] == a["opts"]["drop"]]
                 if got and a["len"] != len(got[0]["rows"]):
                     fails.append((f"operation {n}: len() = {a['len']} asked while iterators are alive and the "
                                   f"loader stands at epoch {e}; the {got[0]['tag']} pass over that epoch has "
@@ -2325,7 +2574,7 @@ class C14(PropertyCheck):
                 if len(set(smp)) != len(smp) or any(not 0 <= x < N for x in smp):
                     fails.append((f"operation {n}: get_samples_for_epoch({arg}) = {smp} repeats or invents an index",
                                   "C14.cover"))
-                got = [g for g in by_epoch.get(arg, ()) if not g["drop"]]
+                got = [g for g in by_epoch.get((seed_in(a.get("opts")), arg), ()) if not g["drop"]]
                 if got and not (got[0].get("invisible") and 0 in lens):
                     if multiset(x for bt in got[0]["rows"] for x in bt) != multiset(smp):
                         fails.append((f"operation {n}: get_samples_for_epoch({arg}) = {smp}, but the {got[0]['tag']} "
@@ -2390,6 +2639,8 @@ class C14(PropertyCheck):
                 t.append("sampler=plain_list")
             elif case.get("sampler"):
                 t.append("sampler=library_" + case["sampler"])
+            t.append("reassign_then_same_epoch=" + ("all_attributes_x_ways" if case.get("sampler") in (
+                "epoch_random", "epoch_seq") else "one_attribute_rotating"))
         elif k == "window":
             t.append(f"window.layout={case.get('layout', 'contig')}")
         elif k == "params":
@@ -2439,6 +2690,12 @@ class C14(PropertyCheck):
             for pos, name, value in case.get("late") or ():
                 t.append(f"assigned={name}@{pos}")
                 t.append("assigned_value=" + ("other_than_constructed" if value != o[name] else "as_constructed"))
+            rv = set()
+            for name, before, again, at_once in revisits(case):
+                rv.add(f"same_epoch_again_after={name}")
+                if at_once and name in ("base_seed", "drop"):
+                    rv.add(f"last_epoch_again_at_once={before}->{name}->{again}")
+            t += sorted(rv)
             if case.get("epoch_via"):
                 t.append("epoch_assigned_via=sampler_attribute")
             if case.get("jump") is not None:
